@@ -75,6 +75,10 @@ def run(ctx) -> None:
 
 _T, _V = "table", "vector"
 MUTANTS = [
+    dict(id="aggregate-stdev-squares-with-pow", module="table",
+         old="					variance = sum((v - mean_val) * (v - mean_val) for v in clean) / (n - 1)",
+         new="					variance = sum((v - mean_val) ** 2 for v in clean) / (n - 1)", rules=["e.vector-reductions"],
+         desc="the defect repaired by fix ea0e8c4: d ** 2 and d * d differ in the last bit for some floats"),
     dict(id="groups-sorted", module=_T, count=2, nth=0, old="		group_items = list(partition_index.items())", new="		group_items = sorted(partition_index.items(), key=repr)",
          rules=["a.partition"]),
     dict(id="min-wired-to-max", module=_T, old="					return min(clean) if clean else None\n				\n				aggregate_col(col, min_func, \"min\")",
